@@ -215,7 +215,7 @@ class _STIXBase(collections.abc.Mapping):
             | (kwargs.keys() - self._properties.keys() - custom_kwargs)
         property_order = itertools.chain(
             self._properties,
-            toplevel_extension_props,
+            sorted(toplevel_extension_props),
             sorted(all_custom_prop_names),
         )
 
